@@ -47,12 +47,46 @@ def _reloaded_twin(run, pending):
     tab, pc = pending
     if min(pc.n, pc.m) > 8:
         return
-    with guard(run, 'Context.fromdict(context.todict())', [pc.line, 'lattice']):
+    how = run.rng.choice(['fromdict', 'fromdict permuted raw=True', 'fromjson bogus stored lattice ignore_lattice=True',
+                          'fromdict of a later todict() after the caller scrambled an earlier one'])
+    with guard(run, 'twin context: ' + how, [pc.line, 'lattice']):
+        import io
+        import json
         twin = copy.copy(pc)
-        twin.ctx = concepts.Context.fromdict(pc.ctx.todict())
+        dd = pc.ctx.todict()
+        bogus = [(tuple(range(pc.n)), (), (), ())]
+        if how == 'fromdict':
+            twin.ctx = concepts.Context.fromdict(dd)
+        elif how.startswith('fromdict permuted'):
+            twin.ctx = concepts.Context.fromdict(dict(dd, lattice=permute_stored(run.rng, dd['lattice'])), raw=True)
+        elif how.startswith('fromjson'):
+            # a stored lattice that does not belong to the table must not matter when it is ignored: the lattice is computed
+            doc = json.dumps(dict(dd, lattice=bogus))
+            twin.ctx = concepts.Context.fromjson(io.StringIO(doc), ignore_lattice=True)
+        else:
+            dd['lattice'][:] = bogus
+            dd['context'][:] = []
+            twin.ctx = concepts.Context.fromdict(pc.ctx.todict())
         twin.reloaded = True
-    run.count('contexts reloaded from todict() (lattice not built by __init__)')
+    run.count('twin context: ' + how)
     yield tab, twin
+
+
+def permute_stored(rng, stored):
+    """A permutation of the stored concept sequence with remapped indexes and shuffled tuples."""
+    k = len(stored)
+    perm = list(range(k))
+    rng.shuffle(perm)              # new position p holds old concept perm[p]
+    newpos = {old: p for p, old in enumerate(perm)}
+    out = []
+    for old in perm:
+        ex, it, up, lo = stored[old]
+        ex, it = list(ex), list(it)
+        up, lo = [newpos[u] for u in up], [newpos[l] for l in lo]
+        for l in (ex, it, up, lo):
+            rng.shuffle(l)
+        out.append((tuple(ex), tuple(it), tuple(up), tuple(lo)))
+    return out
 
 
 def subsets(run, k, limit_all=6, sample=20):
@@ -88,6 +122,24 @@ def noisy_args(run, labels):
         l = l + [run.rng.choice(l) for _ in range(run.rng.randint(1, 3))]
     run.rng.shuffle(l)
     return l
+
+
+def as_iterable(run, items):
+    """The same labels as one of the kinds a parameter annotated `Iterable[str]` admits: list, tuple, dict key view,
+    one-shot iterator, generator."""
+    k = run.rng.randrange(6)
+    items = list(items)
+    if k == 0:
+        return items
+    if k == 1:
+        return tuple(items)
+    if k == 2:
+        return dict.fromkeys(items).keys() if len(set(items)) == len(items) else tuple(items)
+    if k == 3:
+        return iter(items)
+    if k == 4:
+        return (x for x in items)
+    return map(str, items)
 
 
 def parse_lattice(ans):
